@@ -9,6 +9,8 @@ _TASKS = []
 
 def _run(i):
     name, build, mode = _TASKS[i]
+    if mode == "F":  # syntactic frame obligations (pyvc.frames): build() computes the result directly
+        return build().to_dict()
     return run_task(name, build, mode).to_dict()
 
 
